@@ -1,6 +1,7 @@
 """C11 persistent storage under power cuts and medium faults: PersistentTrace.tla validates recorded executions."""
 import random, itertools
 import vf
+from C10 import mbase
 
 META = dict(
     engine='Persistent.tla',
@@ -34,10 +35,11 @@ def crash_scripts(rnd, quick):
             if ln >= 1:
                 stores.append(('storep %d %d %s' % (off, ln, ' '.join(map(str, new[off:off + ln]))), ln))
         sc = []
+        mb = mbase(rnd, msize)
         for st, ln in stores:
             for cut in range(0, 4):
                 for torn in sorted(set(range(0, max(ln, width) + 1))):
-                    sc += [head, 'store %d %s' % (n, ' '.join(map(str, prev))), 'validate',
+                    sc += mb + [head, 'store %d %s' % (n, ' '.join(map(str, prev))), 'validate',
                            'crash %d %d' % (cut, torn), st, 'reopen', 'validate', 'fetch']
         yield sc
 
@@ -53,10 +55,11 @@ def fault_scripts(rnd, quick):
                'storep 0 1 %d' % img2[0], 'storep %d 1 %d' % (n - 1, img2[-1]),
                'validate', 'fetch', 'fetchp 0 1', 'reset 255']
         sc = []
+        mb = mbase(rnd, msize)
         for op in ops:
             for k in range(1, n + 5):
                 for kind in (1, 2):
-                    sc += [head, 'store %d %s' % (n, ' '.join(map(str, img))),
+                    sc += mb + [head, 'store %d %s' % (n, ' '.join(map(str, img))),
                            'fault %d %d' % (k, kind), op, 'reopen', 'validate', 'fetch']
         yield sc
 
